@@ -35,3 +35,10 @@ Theorem C19_toggle : forall pre flag c post,
   Some (wrapper_trace (flag_after flag pre) false false c).
 Proof. exact toggle. Qed.
 Print Assumptions C19_toggle.
+
+(* the disabled wrapper's trace is [Body] in the model because the source tests the switch first and returns
+   the original function before binding the signature or opening a context -- read from the AST (gen/Brackets.v) *)
+From JT Require Import gen.Brackets.
+Theorem C19_disabled_returns_before_anything_else : disabled_returns_before_push = true.
+Proof. reflexivity. Qed.
+Print Assumptions C19_disabled_returns_before_anything_else.
